@@ -13,6 +13,7 @@ import checks_fuzz
 import checks_text
 import checks_gser
 import checks_history
+import checks_stateless
 
 
 def c01(tier, seed):
@@ -42,9 +43,9 @@ def c06(tier, seed):
                                     'thorough': (['tests/test_oer.py', 'tests/test_codecs_consistency.py'], 'not c_source')})
 
 
-REPLAYERS = {'C13': lambda rp, seed: checks_history.c13_replay(rp, seed), 'C20': lambda rp, seed: checks_gser.c20_replay(rp['_path'], seed)}
+REPLAYERS = {'C18': lambda rp, seed: checks_stateless.replay_c18(rp, seed), 'C13': lambda rp, seed: checks_history.c13_replay(rp, seed), 'C20': lambda rp, seed: checks_gser.c20_replay(rp['_path'], seed)}
 
-CHECKS = {'C13': checks_history.c13, 'C20': checks_gser.c20, 'C02': checks_text.c02, 'C08': checks_fuzz.c08, 'C07': checks_extend.c07, 'C06': c06, 'C05': c05, 'C01': c01, 'C03': c03, 'C16': c16}
+CHECKS = {'C18': checks_stateless.c18, 'C13': checks_history.c13, 'C20': checks_gser.c20, 'C02': checks_text.c02, 'C08': checks_fuzz.c08, 'C07': checks_extend.c07, 'C06': c06, 'C05': c05, 'C01': c01, 'C03': c03, 'C16': c16}
 
 
 def setup():
